@@ -79,6 +79,15 @@ CHECKS.update({
         'note': 'trusted: reference predicate cond_true/parse_ranges in checks/c13.py; time() is wrapped (virtual seconds)',
         'technique': 'history monitor under virtual time: reference predicate on last stored value vs real availability, ASan/UBSan',
     },
+    'C14': {
+        'text': 'Real EnhancedDevice on the real FileTransport over a simulated descriptor: every adapter stream up to a length bound over a '
+                'representative alphabet under every partition into read chunks (plus random long multi-segment streams), compared with a '
+                'reference decoder written from docs/enhanced_proto.md and between chunkings (symbols, won/lost, diagnostics, requests); '
+                'request encodings for all 256 values; FileTransport read/readConsumed against a reference FIFO with overflow resets.',
+        'design_ref': 'DESIGN.md section 2, C14',
+        'note': 'trusted: reference decoder in harness/enh_driver.cpp; link-time wrapped read/write/ppoll/time (harness/vbus.cpp)',
+        'technique': 'exhaustive chunking-metamorphic + reference-decoder monitor on the real device code under ASan/UBSan',
+    },
     'C17': {
         'text': 'Histories of getNextPoll interleaved with priority changes, front/back insertion, late-loaded messages, removal and reload; '
                 'an online monitor checks the stride-scheduling waiting bound and proportional shares on perturbation-free windows.',
